@@ -1,16 +1,13 @@
 ----------------------------- MODULE MC_PathEval -----------------------------
 (***************************************************************************)
-(* C01 / C03 / C20: evaluation of a selector query as a state machine.     *)
-(* State: the query, a program counter over its segments, and - for every  *)
-(* document of the universe at once - the node list after the segments     *)
-(* applied so far.  One action per segment (RFC 9535 2.5).                 *)
+(* C01 / C03 / C20: the evaluation machine (EvalMachine.tla) instantiated  *)
+(* with the selector-query universes and the crafted documents.            *)
 (***************************************************************************)
 EXTENDS Render, PathDocs, Pointer, Json
 
-CONSTANT Universe    \* which family of queries: "one" | "list" | "two" | "three" | "names"
+CONSTANT Universe    \* which family of queries
 
 VARIABLES q, pc, nodes
-vars == <<q, pc, nodes>>
 
 O(x) == <<x>>
 SliceLo == {<<>>, <<-2>>, <<1>>}
@@ -31,7 +28,7 @@ Pool == {SName(n_a), SName(n_b), SName(n_e), SName(n_ee), SIndex(0), SIndex(1), 
 Pool6 == {SName(n_a), SIndex(0), SIndex(-1), SWild, SSlice(<<>>, <<2>>, <<>>), SName(n_b)}
 SegsOf(P) == {Seg(d, <<s>>) : d \in BOOLEAN, s \in P}
 
-Queries ==
+QuerySet ==
   CASE Universe = "one" -> {Q("$", <<sg>>) : sg \in SegsOf(Sels)} \cup {Q("$", <<>>)}
     [] Universe = "slices" -> {Q("$", <<sg>>) : sg \in SegsOf(SlicesAll)}
     [] Universe = "list" -> {Q("$", <<Seg(d, <<a, b>>)>>) : d \in BOOLEAN, a \in Pool, b \in Pool}
@@ -45,58 +42,20 @@ Queries ==
 
 \* surface styles (DESIGN.md 4.5): brackets/single quotes; brackets/double quotes with blanks;
 \* dot shorthand; brackets with TAB / LF / CR blanks and \u escapes
-Styles == << StdStyle,
+StyleSeq == << StdStyle,
              [StdStyle EXCEPT !.q = 34, !.sp = <<32>>],
              [StdStyle EXCEPT !.dot = TRUE],
              [StdStyle EXCEPT !.sp = <<9, 10, 13>>, !.uni = TRUE, !.q = 34],
              [StdStyle EXCEPT !.dot = TRUE, !.sp = <<32>>, !.uni = TRUE] >>
 
-NDocs == Len(DocSeq)
-Roots == [d \in 1..NDocs |-> <<Node(<<>>, DocSeq[d])>>]
 
-Init == /\ q \in Queries
-        /\ pc = 0
-        /\ nodes = Roots
+M == INSTANCE EvalMachine WITH Queries <- QuerySet, DocSeq <- DocSeq, Styles <- StyleSeq, Ctx <- Obj(<<>>, <<>>)
 
-\* one segment applied to the node list of every document
-Segment ==
-  /\ pc < Len(q.segs)
-  /\ nodes' = [d \in 1..NDocs |-> ApplySegment(q.segs[pc + 1], nodes[d], RootEnv(DocSeq[d], Obj(<<>>, <<>>)))]
-  /\ pc' = pc + 1
-  /\ UNCHANGED q
-Next == Segment
-Spec == Init /\ [][Next]_vars /\ WF_vars(Next)
-
-Terminal == pc = Len(q.segs)
-
-\* ---- properties of the design ------------------------------------------------
-\* every node in the list is where its location says it is
-LocOK == \A d \in 1..NDocs : \A i \in 1..Len(nodes[d]) : At(DocSeq[d], nodes[d][i].loc) = nodes[d][i].v
-\* the pipeline equals the RFC denotation computed in one go, and the second formulation
-RECURSIVE RunDirect(_, _, _, _)
-RunDirect(segs, k, ns, env) == IF k > Len(segs) THEN ns ELSE RunDirect(segs, k + 1, SegDirect(segs[k], ns, env), env)
-Denotation ==
-  Terminal => \A d \in 1..NDocs :
-     /\ nodes[d] = Eval(q, DocSeq[d])
-     /\ nodes[d] = RunDirect(q.segs, 1, Roots[d], RootEnv(DocSeq[d], Obj(<<>>, <<>>)))
-\* selectors applied to primitives select nothing: every selected node's parent is a container
-WrongKindSelectsNothing ==
-  \A d \in 1..NDocs : \A i \in 1..Len(nodes[d]) :
-     nodes[d][i].loc # <<>> => IsContainer(At(DocSeq[d], Front(nodes[d][i].loc)))
-Terminates == <>Terminal
-
-\* ---- exports -------------------------------------------------------------------
-\* printed once: the documents with, for every node, its location, normalized path (RFC 9535 2.7),
-\* pointer (RFC 6901) and the documents RFC 6902 replace / remove at that node must produce
-NewVal == Str(<<78, 69, 87>>)
-ASSUME PrintT(ToJson([docs |-> [d \in 1..NDocs |->
-          [doc |-> DocSeq[d],
-           nodes |-> [i \in 1..Len(LocsOf(DocSeq[d])) |->
-               LET l == LocsOf(DocSeq[d])[i] IN
-               [loc |-> l, path |-> NormPath(l), ptr |-> PrintPtr(TokensOf(l)),
-                replaced |-> SetAtLoc(DocSeq[d], l, NewVal),
-                removed |-> IF l = <<>> THEN Null ELSE RemoveAtLoc(DocSeq[d], l)]]]]]))
-
-Export == Terminal => PrintT(ToJson([q |-> q, texts |-> [s \in 1..Len(Styles) |-> Render(q, Styles[s])],
-                                      res |-> [d \in 1..NDocs |-> [i \in 1..Len(nodes[d]) |-> nodes[d][i].loc]]]))
+Spec == M!Spec
+LocOK == M!LocOK
+Denotation == M!Denotation
+WrongKindSelectsNothing == M!WrongKindSelectsNothing
+Terminates == M!Terminates
+Export == M!Export
+ASSUME PrintT(ToJson([docs |-> M!DocsWithTables]))
 =============================================================================
